@@ -18,6 +18,8 @@
 (*   ParScns      two and three entries, parallel 0..4: every interleaving  *)
 (*                of the entries' request sequences under the throttle      *)
 (*   RegScns      registry entries: repository filters x tag filters        *)
+(*   FlagScns     two-entry lists, first entry with an inline flag, tags    *)
+(*                that differ only by letter case (v2 / V2)                 *)
 (*   SameScns     the target is a repository of the source registry         *)
 (*   S14Scns      top level alternations of 2-3 of the five pool tags in    *)
 (*   S14Quick     every order, as allow and as deny list; with Anchoring =  *)
@@ -33,10 +35,10 @@
 EXTENDS RegSync
 
 CharsDef == [v1 |-> <<"v", "1">>, v10 |-> <<"v", "1", "0">>, xv2 |-> <<"x", "v", "2">>, v2 |-> <<"v", "2">>,
-             latest |-> <<"l", "a", "t", "e", "s", "t">>, dtA |-> <<"s", "h", "a", "2", "5", "6", "-">>,
+             latest |-> <<"l", "a", "t", "e", "s", "t">>, V2 |-> <<"V", "2">>, dtA |-> <<"s", "h", "a", "2", "5", "6", "-">>,
              r1 |-> <<"r", "1">>, r10 |-> <<"r", "1", "0">>, r2 |-> <<"r", "2">>, xr2 |-> <<"x", "r", "2">>]
-\* lexicographic, as the registry lists them (dtA stands for sha256-...)
-NameOrderDef == <<"latest", "r1", "r10", "r2", "dtA", "v1", "v10", "v2", "xr2", "xv2">>
+\* lexicographic (ASCII: upper case first), as the registry lists them (dtA stands for sha256-...)
+NameOrderDef == <<"V2", "latest", "r1", "r10", "r2", "dtA", "v1", "v10", "v2", "xr2", "xv2">>
 
 E0 == [type |-> "repository", srepo |-> "r1", stag |-> "", treg |-> "tgt", trepo |-> "r1", ttag |-> "",
        allow |-> <<>>, deny |-> <<>>, rallow |-> <<>>, rdeny |-> <<>>, platform |-> "", mts |-> <<>>,
@@ -146,6 +148,18 @@ S14Quick(z) ==
   {Scn(Conf(0, <<[E0 EXCEPT !.allow = al, !.deny = de]>>), {<<"r1", t, "A">> : t \in T5}, {<<"r1", "v10", "B">>}, <<Run("once")>>) :
      al \in {<<>>} \cup {<<F(s, "alt")>> : s \in {q \in AltSeqs(z) : Len(q) = 2}}, de \in {<<>>, <<F(<<"v2", "v1">>, "alt")>>}}
 
+\* ---------------------------------------------------------------- regular expression features
+\* two-entry allow / deny lists whose first entry carries an inline flag (unclosed or scoped) and
+\* whose later entry is plain, over tags that differ only by letter case.  The design treats an
+\* entry as the subset it matches on its own whatever its spelling; the spellings matter to the
+\* real binary (how the entries of a list are combined).
+CaseTags == {"v1", "v2", "V2"}
+FlagScns(z) ==
+  {Scn(Conf(0, <<IF pos = "allow" THEN [E0 EXCEPT !.allow = <<F(OrdSeq(a), s1), F(OrdSeq(b), s2)>>]
+                                   ELSE [E0 EXCEPT !.deny = <<F(OrdSeq(a), s1), F(OrdSeq(b), s2)>>]>>),
+       {<<"r1", t, "A">> : t \in CaseTags} \cup {<<"r1", "latest", "B">>}, {<<"r1", "V2", "C">>, <<"r1", "zz", "C">>}, <<Run("once")>>) :
+     a \in SUBSET CaseTags, s1 \in {"iflag", "iscoped"}, b \in (SUBSET CaseTags) \ {{}}, s2 \in {"group", "anch"}, pos \in {"allow", "deny"}}
+
 \* ---------------------------------------------------------------- forced platform copy over an index
 BkForceScns(z) ==
   {Scn(Conf(0, <<Opt(Img1("r1", "v1"), "amd64", <<>>, bk, sw)>>), {<<"r1", "v1", "X">>}, {<<"r1", "v1", "X">>}, <<Run("once")>>) :
@@ -162,9 +176,9 @@ SharedBkSeqScns(z) ==
 \* TLC evaluates every constant level definition without parameters when it starts; the spaces
 \* above take a dummy parameter so that only the one a configuration selects is built
 CONSTANT Space
-SpaceScns == CASE Space = "quick" -> <<FilterScns(0), DecideQuick(0), RollScns(0), ParScns(0), RegScns(0), SharedBkSeqScns(0), SameScns(0), HoleScns(0),
+SpaceScns == CASE Space = "quick" -> <<FilterScns(0), DecideQuick(0), RollScns(0), ParScns(0), RegScns(0), SharedBkSeqScns(0), SameScns(0), HoleScns(0), FlagScns(0),
                                       BkForceScns(0), S14Quick(0)>>
-               [] Space = "gen" -> <<DecideQuick(0), RollScns(0), ParScns(0), RegScns(0), SameScns(0), S14Quick(0), BkForceScns(0), HoleScns(0)>>
+               [] Space = "gen" -> <<DecideQuick(0), RollScns(0), ParScns(0), RegScns(0), SameScns(0), S14Quick(0), BkForceScns(0), HoleScns(0), FlagScns(0)>>
                [] Space = "full" -> <<DecideFull(0), HoleFull(0)>>
                [] Space = "par" -> <<ParScns(0)>>
                [] Space = "s14" -> <<S14Scns(0)>>
